@@ -106,7 +106,7 @@ impl Debt {
     {
         LocalNode::with(|local| {
             #[cfg(arc_swap_verif)]
-            verif_rt::event(verif_rt::probes::PAYALL_ENTER, 0);
+            verif_rt::event(verif_rt::probes::PAYALL_ENTER, ptr as usize);
             let val = unsafe { T::from_ptr(ptr) };
             // Pre-pay one ref count that can be safely put into a debt slot to pay it.
             T::inc(&val);
